@@ -120,6 +120,28 @@ def case_dec(kind, bs, tag=TAG):
     return 'CDec %s %s %s %s %s' % (kind, cp.z(tag.value), mem, cp.byts(bs), impl), r
 
 
+def impl_reencode(kind, bs, tag=TAG):
+    """decode bs, then write the DECODED object -> None (read raised) | ('raise',) | ('ok', bytes)"""
+    o = blank(kind, tag)
+    try:
+        o.read(utils.BytearrayStream(bs))
+    except Exception:
+        return None
+    s = utils.BytearrayStream()
+    try:
+        o.write(s)
+    except Exception:
+        return ('raise',)
+    return ('ok', bytes(s.buffer))
+
+
+def case_reenc(kind, bs, tag=TAG):
+    r = impl_reencode(kind, bs, tag)
+    impl = 'None' if r is None else ('(Some None)' if r[0] == 'raise' else '(Some (Some %s))' % cp.byts(r[1]))
+    mem = '[' + ';'.join(str(m) for m in ENUM_MEMBERS) + ']%Z' if kind == 'PEnum' else '[]'
+    return 'CReenc %s %s %s %s %s' % (kind, cp.z(tag.value), mem, cp.byts(bs), impl), r
+
+
 # ------------------------------------------------------------------ generators
 def boundary_ints():
     out = {0, 1, -1, 2, 127, 128, 255, 256}
